@@ -351,6 +351,13 @@ func propC18(rec *ev.Recorder) func(t *rapid.T) {
 				c.Instances = append(c.Instances, all[rapid.IntRange(0, len(all)-1).Draw(t, "c07inst")])
 			}
 			rec.Class("lens:annotation-flow(C07 generator)")
+			// leave out schemas with exponentially many in-place paths (see C01): the library has no
+			// memo and would take minutes
+			modelCostSeen = 0
+			if _, err := modelVerdicts(c.Schema, c.Instances, refmodel.VariantSpec); err != nil || modelCostSeen > 2e6 {
+				rec.Class("discard:exponentially-many-in-place-paths")
+				t.Skip("too many in-place paths")
+			}
 		}
 		stripUnsafeMultipleOf(c.Schema, c.Instances)
 		wantReq := rapid.IntRange(0, 2).Draw(t, "reqdeco") == 0
